@@ -75,6 +75,13 @@ fn respell(p: &str, how: usize) -> String {
     }
 }
 
+fn names_tainted_bid(j: &Judge, msg: &Value) -> bool {
+    match Req::from_value(msg) {
+        Req::Match { bid_id, .. } => j.tracker.bids.get(&bid_id).map(|t| t.tainted).unwrap_or(false),
+        _ => false,
+    }
+}
+
 fn check_match_verdict(j: &mut Judge, w: &World, book: &Book, sender: &str, funds: &[(String, u128)], msg: &Value, origin: &str) {
     let exp = verdict_of(w, book, sender, funds, msg);
     let (out, _) = run(w, sender, funds, msg);
@@ -98,7 +105,11 @@ fn judge_match(j: &mut Judge, exp: &model::Expect, out: &Outcome, msg: &Value, o
             }
         }
         Verdict::Accept => {
-            if !out.accepted() {
+            // no converse demand on a bid whose recorded amounts went through a product beyond
+            // 96 bits earlier (B.7): the contract's own recomputation may differ by a unit
+            if !out.accepted() && names_tainted_bid(j, msg) {
+                j.label("converse-skipped-tainted-bid");
+            } else if !out.accepted() {
                 j.violate(
                     Prop::C03,
                     "eligible-match-refused",
